@@ -21,6 +21,9 @@ type Interp struct {
 	Calls []Call
 	Steps int
 	// NameObs records the template name current at every recorded call (also in Calls[i].Tpl).
+	// SeqAliases: the aliases of one use statement apply one after the other in source order, each seeing the
+	// names the earlier ones introduced; otherwise every alias names the library's own block.
+	SeqAliases bool
 }
 
 // ErrModel is an error the model expects the implementation to report too.
@@ -173,8 +176,14 @@ func (s *rstate) use(u *gen.NUse) error {
 		return merr("template %q not found", name)
 	}
 	blocks := collectBlocks(t.Body, name)
+	// every alias names a block of the library as the library defines it: the aliases of one statement do not
+	// feed each other
+	lib := collectBlocks(t.Body, name)
+	if s.in.SeqAliases {
+		lib = blocks
+	}
 	for _, a := range u.Aliases {
-		b, ok := blocks[a[0]]
+		b, ok := lib[a[0]]
 		if !ok {
 			return merr("use: no block %q", a[0])
 		}
